@@ -152,6 +152,36 @@ CHECKS = {
         technique="Lean 4 proof (AVL invariants, finite-map refinement, Fibonacci height bound) + shape-exact differential "
                   "correspondence + alloc/free log analysis",
         ref="DESIGN.md §6 C19"),
+    "C06": dict(
+        text="Lean 4 theorems (CbProps/C06.lean): exec, a mechanism model of the interpreter's two cleanup stacks with "
+             "pushes/pops placed where cleanup.cpp, the statement-list/loop executors, return.cpp and the call code perform "
+             "them, refines sexec, a structured specification in which every scope owns its registrations and leaving it by "
+             "ANY path (fall-through, return from any depth, break, continue) runs its defers LIFO, then its destructors LIFO, "
+             "inner scopes first: for every skeleton program and fuel the traces are equal and both stacks are balanced "
+             "(exec_refines on arbitrary enclosing frames, run_refines_spec for whole programs); a call leaves the caller's "
+             "frames exactly as they were; in the specification every object is destroyed exactly once. Tie: skeleton "
+             "programs rendered to Cb (constructors/destructors/defers print tags): stdout must equal the specification "
+             "trace; every callee body of <= 2 statements to depth 1 called from 3 cleanup-owning sites (exhaustive in "
+             "thorough, sampled 1/3 in quick) plus random skeletons to depth 4 with up to 3 functions.",
+        note="The model was written against the repaired tree (fix c0bbf6e); on the pinned tree the same check reports the "
+             "caller-object destruction and the late defer with concrete skeletons. Recursion, cleanup inside async tasks "
+             "and the position of the return expression's evaluation are not covered.",
+        technique="Lean 4 proof (simulation between the stack mechanism and a structured scope semantics, joint induction "
+                  "on fuel) + end-to-end trace correspondence on skeleton programs",
+        ref="DESIGN.md §6 C06"),
+    "C20": dict(
+        text="Lean 4 theorems (CbProps/C20.lean), for ANY call table: rows that pass rowOK call a declared signature "
+             "through a function pointer of exactly the declared C type with the k-th C argument taken from the k-th Cb "
+             "argument by the extraction its type requires; a non-overlapping table selects at most one row; 32-bit int "
+             "marshalling is the identity on the int range. Obligations (decide) on CbGen.ffiTable, regenerated from the "
+             "if-chain of FFIManager::callFunction on every run: ffiTable_rows_ok, ffiTable_no_overlap. Tie: translator + "
+             "an echo library compiled by the check: every supported signature x boundary values x every argument position, "
+             "qualified and unqualified calls, 64-bit results; unsupported signatures must be reported, exit 1, and must not "
+             "enter the native function (marker files).",
+        note="Trusted: translator tools/translate/ffi.py, gcc, the SysV ABI, dlopen. Double equality is evaluated by the "
+             "interpreter. Listed finding: void functions with unsupported parameters are silently skipped.",
+        technique="Lean 4 proof (table laws) + translator-regenerated table with decide obligations + exhaustive echo suite",
+        ref="DESIGN.md §6 C20"),
 }
 
 PENDING = {}
